@@ -43,6 +43,7 @@ fi
 if [ $WHAT = neutral ] || [ $WHAT = all ]; then
   for f in selftest/neutral/*.patch; do n=$(basename $f .patch); echo "neutral $n /verif/$f $ALL" >> $jobs_file; done
 fi
+[ -n "${ONLY:-}" ] && { grep -E "$ONLY" $jobs_file > $jobs_file.f; mv $jobs_file.f $jobs_file; }
 cat $jobs_file | xargs -P $J -L 1 bash -c 'one "$@"' _
 python3 - $RES <<'PY'
 import sys,os,json
